@@ -1946,6 +1946,20 @@ func (db *DB) newSyncExecutor(ctx context.Context) (*syncExecutor, error) {
 		return nil, fmt.Errorf("pos: %w", err)
 	}
 
+	// Local LTX state can disappear while the database stays initialized
+	// (ResetLocalState, auto-recovery). Re-establish the baseline from the
+	// replica, as init() does, so the next file continues above everything
+	// already replicated instead of restarting the local chain at TXID 1
+	// underneath a replica that is further ahead.
+	if pos.TXID == 0 && db.Replica != nil && db.Replica.Client != nil {
+		if err := db.checkDatabaseBehindReplica(ctx); err != nil {
+			return nil, fmt.Errorf("check database behind replica: %w", err)
+		}
+		if pos, err = db.Pos(); err != nil {
+			return nil, fmt.Errorf("pos: %w", err)
+		}
+	}
+
 	return &syncExecutor{
 		state: db.syncState,
 		pos:   pos,
